@@ -4,4 +4,4 @@ Require Extraction.
 Require Import ExtrOcamlBasic.
 From Coq Require Import ZArith NArith.
 From SWH.model Require Import Hashutil.
-Extraction "extract/C01/model.ml" run_route run_script Hsym Hexec view i_data from_state_new from_state_old Z.of_N N.to_nat.
+Extraction "extract/C01/model.ml" run_route run_script hash_git_data Hsym Hexec view i_data from_state_new from_state_old Z.of_N N.to_nat.
